@@ -48,6 +48,9 @@ pub fn gen_clients(r: &mut Rng, n: usize, with_invalid: bool, max_reqs: usize) -
                 9 if odd_paths => "blocker/below".to_string(),
                 _ => r.pick(&shared).clone(),
             };
+            // sometimes the same file under another spelling (`./p`, `d//f`, `d/./f`): the hub
+            // accepts these, and they name the same compare-and-swap object
+            let path = if r.below(6) == 0 { respell(&path, r) } else { path };
             let expected = match r.below(10) {
                 0 | 1 => Exp::None,
                 2 | 3 => Exp::Initial,
@@ -85,9 +88,19 @@ pub fn gen_clients(r: &mut Rng, n: usize, with_invalid: bool, max_reqs: usize) -
                 _ => reqs.push(Req::List),
             }
         }
-        clients.push(ClientProg { reqs, chunk_seed: r.next_u64(), magic: true, bye: r.coin(), pipeline: false });
+        clients.push(ClientProg { reqs, chunk_seed: r.next_u64(), magic: true, bye: r.coin(), pipeline: false, pad: Vec::new() });
     }
     (init, clients)
+}
+
+/// Another spelling of the same relative path.
+pub fn respell(p: &str, r: &mut Rng) -> String {
+    match r.below(4) {
+        0 => format!("./{p}"),
+        1 if p.contains('/') => p.replacen('/', "//", 1),
+        2 if p.contains('/') => p.replacen('/', "/./", 1),
+        _ => format!("././{p}"),
+    }
 }
 
 /// One injected errno on a file-system call of server `srv`, or (one case in eight) a short write.
@@ -187,7 +200,7 @@ pub fn hub_probes(rep: &mut RunReport, run: &HubRun) {
         for b in &ops {
             if a.client < b.client {
                 if let (OpKindH::Put { path: pa, .. }, OpKindH::Put { path: pb, .. }) = (&a.kind, &b.kind) {
-                    if pa == pb {
+                    if norm_path(pa) == norm_path(pb) {
                         if let (Some((ra, _)), Some((rb, _))) = (&a.resp, &b.resp) {
                             if a.inv < *rb && b.inv < *ra {
                                 overlap_puts = true;
